@@ -59,6 +59,10 @@ def fill(tmpl, sec, name):
     sec = dict(sec)
     # fragments written before the per-event step counter `tn` existed
     sec["TRACEACTIONS"] = sec.get("TRACEACTIONS", "").replace("UNCHANGED <<tk, xm>>", "UNCHANGED <<tk, xm, tn>>")
+    # sections that are spliced into a one-line set/record: keep them on that line (a continuation
+    # line left of an enclosing /\ or \/ bullet would end the junction list)
+    for k in ("FIBERFIELDS", "MGRFIELDS", "FAITHFUL", "UNFAITHFUL", "SKIPKINDS"):
+        sec[k] = " ".join(x.strip() for x in sec.get(k, "").splitlines() if x.strip())
     for k, v in sec.items():
         out = out.replace("@@" + k + "@@", v.rstrip("\n") if k not in ("VARIABLES",) else v.rstrip("\n"))
     return out
@@ -239,7 +243,7 @@ def gen_mc(scen, outdir=GEN):
         cl_extra = [" Barriers <- cBarriers", " BCount <- cBCount"]
     else:
         cl_extra = []
-    consts = {"PushToStoreTo": True, "StealOn": True, "BypassCap": 64, "RefetchAfterUnlock": True}
+    consts = {"PushToStoreTo": True, "StealOn": True, "BypassCap": 64, "RefetchAfterUnlock": True, "YieldBalance": False, "MaintSpins": True}
     consts.update(scen.get("consts", {}))
     extra = scen.get("tla_consts", {})  # name -> TLA expression text
     for k, v in extra.items():
